@@ -91,7 +91,6 @@ Fixpoint np_cut (sep : Z) (s : bytes) : bytes * bytes * bool :=
 Definition np_upper (s : bytes) : bytes := map ascii_upper s.
 Definition np_lower (s : bytes) : bytes := map ascii_lower s.
 
-Fixpoint np_has_prefix (p s : bytes) : bool := is_prefix p s.
 
 (* ------------------------------------------------------------------------------------ *)
 (* variable names (internal/variables/variablesmap.gen.go, rulemapRev, in source order; the
@@ -495,18 +494,22 @@ Definition np_operator_names : list string := [
   "validateUtf8Encoding"; "within"
 ]%string.
 
-Definition np_operator_prefix (o : bytes) : outcome (bytes * bytes) :=
+(* the switch that supplies the default operator *)
+Definition np_operator_rewrite (o : bytes) : outcome bytes :=
   let n := np_len o in
   do! c1 <- (if n =? 0 then Ok true
              else (do! a <- np_at o 0; Ok (negb (isb a 64) && negb (isb a 33))));
-  do! o' <- (if c1 then Ok (b_rx_sp ++ o)
-             else if (n =? 1) && bytes_eqb o b_bang then Ok b_nrx
-             else
-               do! c3 <- (if 1 <? n
-                          then (do! a <- np_at o 0;
-                                if isb a 33 then (do! b <- np_at o 1; Ok (negb (isb b 64))) else Ok false)
-                          else Ok false);
-               if c3 then (do! t <- np_slice o 1 n; Ok (b_nrx_sp ++ t)) else Ok o);
+  if c1 then Ok (b_rx_sp ++ o)
+  else if (n =? 1) && bytes_eqb o b_bang then Ok b_nrx
+  else
+    do! c3 <- (if 1 <? n
+               then (do! a <- np_at o 0;
+                     if isb a 33 then (do! b <- np_at o 1; Ok (negb (isb b 64))) else Ok false)
+               else Ok false);
+    if c3 then (do! t <- np_slice o 1 n; Ok (b_nrx_sp ++ t)) else Ok o.
+
+(* strings.Cut / TrimSpace / op[0] ... *)
+Definition np_operator_split (o' : bytes) : outcome (bytes * bytes) :=
   let '(opraw, dataraw, _) := np_cut 32 o' in
   let op := np_trim_space opraw in
   let data := np_trim_space dataraw in
@@ -519,6 +522,9 @@ Definition np_operator_prefix (o : bytes) : outcome (bytes * bytes) :=
                     else Ok op)
               else Ok op);
   Ok (op', data).
+
+Definition np_operator_prefix (o : bytes) : outcome (bytes * bytes) :=
+  do! o' <- np_operator_rewrite o; np_operator_split o'.
 
 (* ... followed by operators.Get(op): Err when the name is not registered (the operator's own
    argument validation is not modelled) *)
